@@ -48,6 +48,10 @@ Graphs == [
   \* a layer addressed by a sha512 digest (blobs/sha512/<hex>)
   alg512 |-> [nodes |-> [m |-> Im("oci", <<K("c", "cfg"), K("l5", "lay")>>, "", ""), c |-> Bl("cfg"), l5 |-> Bl("sha512")],
               roots |-> <<Rt("m", "v1")>>, victim |-> "l5"],
+  \* an index whose entry names an image manifest by a sha512 digest
+  man512 |-> [nodes |-> [i |-> Ix("oci", <<K("m5", "man")>>), m5 |-> Im("oci", <<K("c", "cfg"), K("l", "lay")>>, "", ""),
+                         c |-> Bl("cfg"), l |-> Bl("norm")],
+              roots |-> <<Rt("i", "v1")>>, victim |-> "l"],
   dimg |-> [nodes |-> [m |-> Im("docker", <<K("c", "cfg"), K("l1", "lay")>>, "", ""), c |-> Bl("cfg"), l1 |-> Bl("norm")],
             roots |-> <<Rt("m", "v1")>>, victim |-> "l1"],
   \* artifact: config and the only layer are the same blob {} ; it has a subject that is not part of it
@@ -139,7 +143,7 @@ RootNodes(g) == {g.roots[i].n : i \in 1..Len(g.roots)}
 Exported(g) == UNION {ClosureN(g.nodes, r) : r \in RootNodes(g)}
 DepthN(nodes, n) == 1 + Cardinality({k \in 1..4 : Lvl(nodes, n, k) # Lvl(nodes, n, k - 1)})
 \* by convention of the catalogue the nodes named in Sha512Nodes are addressed by a sha512 digest
-Sha512Nodes == {"l5"}
+Sha512Nodes == {"l5", "m5"}
 BPath(n) == <<"blobs", IF n \in Sha512Nodes THEN "sha512" ELSE "sha256", "#" \o n>>
 \* manifest.json is written by ImageExport when the exported manifest is a single image
 SingleImage(g) == Len(g.roots) = 1 /\ g.nodes[g.roots[1].n].k = "image"
@@ -180,7 +184,11 @@ Sels == [def |-> [by |-> "tag", v |-> "imp", pre |-> "none"],        \* plain im
          name2 |-> [by |-> "name", v |-> "v2", pre |-> "none"], dig2 |-> [by |-> "digest", v |-> "m2", pre |-> "none"],
          dkname |-> [by |-> "name", v |-> "q:z", pre |-> "none"],
          dkrest |-> [by |-> "name", v |-> "x:v1", pre |-> "none"],
-         preblobs |-> [by |-> "tag", v |-> "imp", pre |-> "blobs"], preall |-> [by |-> "tag", v |-> "imp", pre |-> "all"]]
+         preblobs |-> [by |-> "tag", v |-> "imp", pre |-> "blobs"], preall |-> [by |-> "tag", v |-> "imp", pre |-> "all"],
+         \* the tag exists at the target and names something else
+         prestale |-> [by |-> "tag", v |-> "imp", pre |-> "stale"],
+         \* a single image archive imported to a reference that carries only a digest (pushed by digest, nothing tagged)
+         dig1 |-> [by |-> "digest", v |-> "m", pre |-> "none"]]
 WantOf(g, sel) == IF Len(g.roots) = 1 THEN g.roots[1].n
                   ELSE IF sel.by = "digest" THEN sel.v
                   ELSE g.roots[CHOOSE i \in 1..Len(g.roots) : g.roots[i].tag = sel.v].n
@@ -203,7 +211,7 @@ Mk(gn, lp, sn) ==
        IN [kind |-> "docker", g |-> gn, lp |-> lp, sel |-> Sels[sn], nodes |-> g.nodes, roots |-> g.roots,
            docker |-> DockerOf(g), entries |-> E, want |-> "",
            dkwant |-> [cfg |-> m.kids[1].n, layers |-> [i \in 1..(Len(m.kids) - 1) |-> m.kids[i + 1].n]],
-           maxpass |-> 2, preblobs |-> {}, premans |-> {}, bad |-> ""]
+           maxpass |-> 2, pretag |-> "", preblobs |-> {}, premans |-> {}, bad |-> ""]
   ELSE IF gn \in DOMAIN Graphs
   THEN LET g == Graphs[gn]
            E == WithLink(BaseEntries(g), g.victim, lp)
@@ -211,17 +219,18 @@ Mk(gn, lp, sn) ==
        IN [kind |-> "oci", g |-> gn, lp |-> lp, sel |-> Sels[sn], nodes |-> g.nodes, roots |-> g.roots,
            docker |-> DockerOf(g), entries |-> E, want |-> want, dkwant |-> [cfg |-> "", layers |-> <<>>],
            maxpass |-> DepthN(g.nodes, want) + 1 + NLinks(E),
-           preblobs |-> IF Sels[sn].pre = "none" THEN {} ELSE {n \in ClosureN(g.nodes, want) : g.nodes[n].k = "blob"},
+           pretag |-> IF Sels[sn].pre = "stale" THEN "stale" ELSE "",
+           preblobs |-> IF Sels[sn].pre \in {"none", "stale"} THEN {} ELSE {n \in ClosureN(g.nodes, want) : g.nodes[n].k = "blob"},
            premans |-> IF Sels[sn].pre = "all" THEN {n \in ClosureN(g.nodes, want) : g.nodes[n].k # "blob"} ELSE {},
            bad |-> IF lp \in LinkBad THEN "link" ELSE IF DrainClass(g, want) /\ Sels[sn].pre = "none" THEN "drain" ELSE ""]
   ELSE LET d == DkGraphs[gn]
            E == WithLink({F(<<"manifest.json">>, "docker")} \cup d.files, "", lp)
        IN [kind |-> "docker", g |-> gn, lp |-> lp, sel |-> Sels[sn], nodes |-> [none |-> Bl("norm")], roots |-> <<>>,
            docker |-> d.docker, entries |-> E, want |-> "", dkwant |-> d.want,
-           maxpass |-> 2 + NLinks(E) + (IF gn = "dksym" THEN 1 ELSE 0), preblobs |-> {}, premans |-> {},
+           maxpass |-> 2 + NLinks(E) + (IF gn = "dksym" THEN 1 ELSE 0), pretag |-> "", preblobs |-> {}, premans |-> {},
            bad |-> IF gn = "dksame" THEN "duppath" ELSE ""]
 
-OciSmall == {"eidx", "single1", "emptyl", "inline", "dimg", "art", "alg512"}         \* archives of <= 6 entries
+OciSmall == {"eidx", "single1", "emptyl", "inline", "dimg", "art", "alg512", "man512"}         \* archives of <= 6 entries
 OciMid == {"single1m", "single2", "extl", "nested", "blobent", "unkent", "emptyent", "sharedent", "idxsame"}   \* 7
 OciBig == {"idx2", "dock", "multi"}                                        \* 8
 LinkAll == (LinkOK \cup LinkBad) \ {"none"}
@@ -239,7 +248,7 @@ QuickIds == ({"eidx", "single1", "art"} \X {"none"} \X {"def"})
 \* small: the other archives of <= 6 entries
 SmallIds == ((OciSmall \ {"eidx", "single1", "art"}) \X {"none"} \X {"def"})
             \cup ({"art"} \X {"symabs", "hardext", "symup", "hardshared", "idxlink", "dotslash", "junk", "dirs"} \X {"def"})
-            \cup ({"single1"} \X {"none"} \X {"preblobs", "preall"})
+            \cup ({"single1"} \X {"none"} \X {"preblobs", "preall", "prestale", "dig1"})
             \cup ({"alg512"} \X {"symroot"} \X {"def"})
             \cup DkRestIds({"emptyl", "dimg", "alg512", "extl"})
 \* mid: archives of 7 entries
